@@ -100,6 +100,11 @@ def natural_matrix(ctx):
         # meshed device: the second run must screen with the new Lambda (reference from the values asked for)
         dict(dev="bar", screening=True, tol=1e-3, adaptive=False, dt_init=d6, current=4.0, field=0.5, solve_time=4 * d6 - d6 / 2, k=2,
              layer_edit=dict(lam=1.0)),
+        # history: device translated in place AFTER meshing: the induced potential is evaluated at the moved edge midpoints
+        dict(dev="ring", screening=True, tol=1e-3, adaptive=False, dt_init=d6, field=2.0, solve_time=4 * d6 - d6 / 2, k=2,
+             translate=[7.0, -3.0]),
+        dict(dev="barhole", screening=True, tol=1e-3, adaptive=False, dt_init=d6, current=2.0, field=0.8, solve_time=4 * d6 - d6 / 2, k=2,
+             translate=[-2.5, 4.0]),
         # history: screening disabled, but the run is seeded (seed_solution=) from a SCREENED solution whose induced
         # potential is not zero: the clause "identically zero with screening disabled" must still hold in every frame
         dict(dev="bar", adaptive=False, dt_init=d6, current=4.0, field=0.5, solve_time=4 * d6 - d6 / 2, k=2,
@@ -188,6 +193,8 @@ def _run(ctx):
     scr = [t for t in ntraces if t["params"].get("screening")]
     if not any(t["params"].get("layer_edit") and t["stats"]["frames"] >= 2 and t["stats"]["max_screening_iterations"] >= 2 for t in ntraces):
         raise core.MachineryFailure("no screening run after an in-place layer edit")
+    if not any(t["params"].get("translate") and t["stats"]["frames"] >= 2 and t["stats"]["max_screening_iterations"] >= 2 for t in ntraces):
+        raise core.MachineryFailure("no screening run on a device translated in place after meshing")
     seeded = [t for t in ntraces if t["params"].get("seed") is not None and not t["params"].get("screening")]
     if not any((t["stats"]["seed_max_induced"] or 0) > 0 and t["stats"]["frames"] >= 2 for t in seeded):
         raise core.MachineryFailure("no unscreened run seeded from a screened solution with a non-zero induced potential")
